@@ -1,12 +1,124 @@
-"""C57 -- Log publisher fan-out, level filter hierarchy, limited history: bounded stand-in (contracts/parts/C57_bounded.py); deductive contracts may be added later."""
-from contracts._parts import bounded, EXPLORATION_NOTE
+"""C57 -- Log publisher fan-out, level filter hierarchy, limited history.
 
-CONTRACTS = []
+Deductive: LogLevelFilterPredicate.logLevelForNamespace returns the level configured for the *longest* configured
+dotted prefix of the namespace (or the default) -- for a namespace of any number of segments, by an inductive loop
+invariant.  The dotted-string operations are replaced by their contract: a namespace of n segments splits into n
+segments, joining the first k segments gives the prefix of k segments, and the configuration is consulted only through
+`in` / `[]` keyed by such prefixes, so it is an uninterpreted predicate conf(k) over prefix lengths.
+Bounded (contracts/parts/C57_bounded.py): publisher fan-out, filters on real strings, limited history.
+"""
+import z3
+
+from pyvc.api import *
+from pyvc import core
+from contracts._parts import bounded
+from twisted.logger import _filter
+
+CONF = z3.Function("c57_configured", z3.IntSort(), z3.BoolSort())  # is the prefix of k segments configured?
+
+
+class Prefix:
+    """the dotted prefix made of the first `k` of the namespace's `n` segments (k >= 1)"""
+
+    def __init__(self, k, n):
+        self.k = k
+        self.n = n
+
+    def __bool__(self):
+        return True  # at least one segment
+
+    def split(self, sep):
+        assert sep == "." and self.k is self.n
+        segs = core.fresh_list(ctx().fresh_name("segments"), "val")
+        ctx().assume(core.as_bool_term(L(segs) == self.n))
+        return segs
+
+
+class LevelMap:
+    """the _logLevelsByNamespace dict as the function consults it; values are reported as the prefix length whose level is
+    returned (0 for the default entry '')"""
+
+    def __contains__(self, key):
+        return core.mk_bool(CONF(core.num_term(key.k)))
+
+    def __getitem__(self, key):
+        if isinstance(key, str):
+            if key != "":
+                raise KeyError(key)
+            return 0
+        if not (key in self):
+            raise KeyError("prefix not configured")
+        return key.k
+
+
+def join_model(I, sep, parts):
+    """'.'.join(segments[:k]) is the prefix of k segments"""
+    if sep != "." or not isinstance(parts, core.SList):
+        return NotImplemented
+    return Prefix(L(parts), ctx().ghost["n"])
+
+
+class LevelForNamespace(Contract):
+    prop = "C57"
+    module = "twisted.logger._filter"
+    function = "LogLevelFilterPredicate.logLevelForNamespace"
+    differential = False
+    calls = {"str.join": join_model}
+    inputs = dict(n=Int(lo=1, small=[1, 2, 3]), empty=ForkBool())
+    trusted = ["str.split('.') / '.'.join(segments[:k]) replaced by their contract over prefix lengths; the dict is an "
+               "uninterpreted predicate over prefix lengths"]
+    loops = {"LogLevelFilterPredicate.logLevelForNamespace#0": LoopSpec(
+        inv=lambda v: band(v.index >= 0, v.index <= L(v.segments) - 1, L(v.segments) == v.n,
+                           core.mk_bool(z3.ForAll([z3.Int("c57_m")], z3.Implies(
+                               z3.And(z3.Int("c57_m") > core.num_term(v.index), z3.Int("c57_m") <= core.num_term(v.n)),
+                               z3.Not(CONF(z3.Int("c57_m"))))))),
+        types={"namespace": lambda nm: Prefix(core.fresh_int(nm), None)},
+        decreases=lambda v: v.index)}
+
+    def setup(self, i):
+        pred = self.make(_filter.LogLevelFilterPredicate, _logLevelsByNamespace=LevelMap())
+        ns = "" if i.empty else None
+        if ns is None:
+            ns = Prefix(i.n, i.n)
+            ns.n = i.n
+            ns.k = ns.n  # the full namespace
+        return dict(self=pred, args=[ns], ghost=dict(n=i.n))
+
+    raises = ()
+
+    def _longest(S):
+        r, n = S.result, S.i.n
+        if S.i.empty:
+            return r == 0
+        m = z3.Int("c57_q")
+        none_longer = core.mk_bool(z3.ForAll([m], z3.Implies(z3.And(m > core.num_term(r), m <= core.num_term(n)),
+                                                             z3.Not(CONF(m)))))
+        return band(r >= 0, r <= n, implies(r > 0, core.mk_bool(CONF(core.num_term(r)))), none_longer)
+
+    ensures = dict(level_of_longest_configured_prefix=_longest)
+    canaries = [("while index > 0:", "while index > 1:", "level_of_longest_configured_prefix"),
+                ("index = len(segments) - 1", "index = len(segments) - 2", "#0/init")]
+
+    def bounded_inputs(self, tier):
+        return iter(())  # real strings and dicts are exercised by the bounded part (LevelFilter)
+
+
+CONTRACTS = [LevelForNamespace]
 BOUNDED = [k for k in bounded("C57") if k.__name__ != "PublisherDuplicateConstructorArgs"]  # LogPublisher(o, o): two registrations by construction; not demanded
-NOTES = dict(explanation='LogPublisher with raising observers and add/remove scripts, LogLevelFilterPredicate over all small namespace configurations, LimitedHistoryLogObserver event/replay scripts, against reference models written from the statement', not_covered=["deductive contracts on the anchored functions (not built)"])
+_SCOPE = ('LogPublisher with raising observers and add/remove scripts, LogLevelFilterPredicate over all small namespace '
+          'configurations, LimitedHistoryLogObserver event/replay scripts, against reference models written from the statement')
+NOTES = dict(explanation="logLevelForNamespace proved to pick the longest configured prefix for any number of segments "
+                         "(over the split/join contract); the rest is bounded: " + _SCOPE,
+             not_covered=["LogPublisher.__call__ fan-out, FilteringLogObserver, LimitedHistoryLogObserver as deductive "
+                          "contracts (bounded tier only)", "the real str.split / str.join (replaced by their contract)"])
 MANIFEST = dict(
-    category="exploration",
-    text="Bounded stand-in only, on the real code: " + 'LogPublisher with raising observers and add/remove scripts, LogLevelFilterPredicate over all small namespace configurations, LimitedHistoryLogObserver event/replay scripts, against reference models written from the statement' + ".",
-    note=EXPLORATION_NOTE,
-    technique="bounded exhaustive evaluation of an executable contract on the real code (stand-in; not proved)",
+    category="proof",
+    text="LogLevelFilterPredicate.logLevelForNamespace is proved, for a namespace of any number of dotted segments, to "
+         "return the level of the longest configured prefix, or the default when none is configured (inductive loop "
+         "invariant: every prefix longer than the loop index is unconfigured; variant: the index).  The string "
+         "operations are replaced by their contract over prefix lengths.  Publisher fan-out, the filter on real strings "
+         "and the limited-history observer are exercised in the bounded tier only: " + _SCOPE + ".",
+    note="Trusted: pyvc, SMT solvers, the split/join contract over prefix lengths, the configuration dict modelled as an "
+         "uninterpreted predicate.  Everything else: bounded, never counted as proved.",
+    technique="contract-based deductive verification (inductive loop invariant with an uninterpreted configuration predicate) + bounded exhaustive scripts",
 )
